@@ -240,6 +240,13 @@ struct Runner {
                 sc.switch_pct = pcts[r.below( 5 )];
                 run_one( id.str(), c, prog, sc, "random" );
             }
+            else if ( args.mode == "cas" ) {
+                // random scheduling whose context switches cluster around CAS / exchange operations
+                sc.mode = M_CASBIAS;
+                static unsigned const pcts[] = { 35, 50, 65 };
+                sc.switch_pct = pcts[r.below( 3 )];
+                run_one( id.str(), c, prog, sc, "cas" );
+            }
             else if ( args.mode == "pct" ) {
                 sc.mode = M_PCT;
                 sc.pct_depth = 1 + unsigned( r.below( 3 ));
@@ -247,7 +254,13 @@ struct Runner {
                 run_one( id.str(), c, prog, sc, "pct" );
             }
             else if ( args.mode == "mixed" ) {
-                if ( k % 2 ) {
+                if ( k % 3 == 2 ) {
+                    sc.mode = M_CASBIAS;
+                    static unsigned const pcts[] = { 35, 50, 65 };
+                    sc.switch_pct = pcts[r.below( 3 )];
+                    run_one( id.str(), c, prog, sc, "cas" );
+                }
+                else if ( k % 3 == 1 ) {
                     sc.mode = M_PCT;
                     sc.pct_depth = 1 + unsigned( r.below( 3 ));
                     sc.est_len = 12 * unsigned( c.threads ) * unsigned( c.nops > 0 ? c.nops : 1 );
